@@ -121,7 +121,14 @@ def one_case(c, tmp, idx):
     if kind_f == "Runner":
         farmer = runner
     elif kind_f == "Harvester":
-        farmer = xyzpy.Harvester(runner, data_name=os.path.join(d, "crop_side"))
+        if rng.random() < 0.3:
+            # the decorator spelling: label(..., harvester=<data name>)
+            farmer = xyzpy.label(tuple(names), fn_args=fn_args, var_dims=var_dims, var_coords=var_coords,
+                                 constants=dict(constants) or None, resources=dict(resources) or None,
+                                 attrs=dict(attrs) or None, harvester=os.path.join(d, "crop_side"))(fn)
+            rep["via_label"] = True
+        else:
+            farmer = xyzpy.Harvester(runner, data_name=os.path.join(d, "crop_side"))
     else:
         farmer = xyzpy.Sampler(runner, data_name=os.path.join(d, "crop_side.pkl"), default_combos=dict(sw.combos))
     crop = farmer.Crop(name="fc", parent_dir=d, batchsize=bs)
